@@ -15,6 +15,15 @@ def pipeline_cfgs(rep, what):
     elif what == 'cuts':        # C03 C06 C14: Unsubscribe at every position
         cfgs.append(pp.gen_cfg('single-cuts', MaxSteps=4 if th else 3, Cuts='TRUE'))
         cfgs.append(pp.gen_cfg('pairs-cuts', ChainSetName='"pairs"' if th else '"pairs-sample"', SampleN=0 if th else 120, MaxSteps=3, Cuts='TRUE'))
+    elif what == 'faults':      # C07: a panic at every callback position / invocation index, two kinds
+        cfgs.append(pp.gen_cfg('single-faults', MaxSteps=4 if th else 3, FaultSetName='"callbacks"', MaxIllegal=1))
+        cfgs.append(pp.gen_cfg('pairs-faults', ChainSetName='"pairs"' if th else '"pairs-sample"', SampleN=0 if th else 40, MaxSteps=3, FaultSetName='"callbacks"'))
+    elif what == 'resub':       # C12: the model re-subscribes the same pipeline object
+        cfgs.append(pp.gen_cfg('single-resub', MaxSteps=5 if th else 4, MaxSubs=2))
+        cfgs.append(pp.gen_cfg('pairs-resub', ChainSetName='"pairs"' if th else '"pairs-sample"', SampleN=0 if th else 40, MaxSteps=5 if th else 4, MaxSubs=2))
+    elif what == 'reuse':       # C12: concurrent subscriptions / one operator value applied to several sources
+        cfgs.append(pp.gen_cfg('single-reuse', MaxSteps=4 if th else 3))
+        cfgs.append(pp.gen_cfg('pairs-reuse', ChainSetName='"pairs"' if th else '"pairs-sample"', SampleN=0 if th else 100, MaxSteps=3))
     return cfgs
 
 
